@@ -1,6 +1,7 @@
 (** Correspondence runner for C07: a history of create / save / get / get_metadata calls on one
     cassette (in-memory, file-based, or S3 with a key prefix); after every call the outcome and
-    the stored names (ids / file names / bucket keys) are compared with the model's.  Every saved
+    the stored names (ids / file names / bucket keys) are compared with the model's (in histories with
+    runs of 1000+ saves, [PBulk], the number of stored names).  Every saved
     value is checked to lie in the leaf domain of the C07 theorems ([rec_leaves_ok]) and re-evaluates
     [loads (dumps j) = Some j] on the concrete parser (a theorem on [jwf]: JsonFacts.loads_dumps). *)
 From Playback Require Export Base.Str Values.PyVal Values.Codec Values.JsonWf Values.JsonParse
@@ -14,6 +15,7 @@ Inductive cop :=
 | PSave (r : recording)
 | PGet (id : str)
 | PGetMeta (id : str)
+| PBulk (rs : list recording)  (* a run of saves of other recordings (a long history), observed as a whole *)
 | PNoop.                       (* a client scribbles on an object it was handed / had saved: no store call *)
 
 Inductive cobs :=
@@ -24,7 +26,10 @@ Inductive cobs :=
 | BRec (id data meta : pyval)
 | BVal (v : pyval).
 
-Record case := Case { k_kind : kind; k_ops : list (cop * cobs * list str) }.
+(** the stored names after a call: all of them, or (histories of 1000+ recordings) only how many there are *)
+Inductive nobs := NAll (l : list str) | NCount (n : N).
+
+Record case := Case { k_kind : kind; k_ops : list (cop * cobs * nobs) }.
 
 Record cstate := CState { s_mem : mem_store; s_dir : directory; s_b : bstate }.
 
@@ -43,11 +48,40 @@ Definition model_names (k : kind) (st : cstate) : list str :=
   | KS3 _ => b_keys (objs (s_b st))
   end.
 
+Definition model_count (k : kind) (st : cstate) : N :=
+  N.of_nat match k with
+           | KMem => length (s_mem st)
+           | KFile => length (s_dir st)
+           | KS3 _ => length (objs (s_b st))
+           end.
+
+Definition names_match (k : kind) (st : cstate) (o : nobs) : bool :=
+  match o with
+  | NAll l => list_eqb str_eqb (model_names k st) l
+  | NCount n => N.eqb (model_count k st) n
+  end.
+
 Inductive mres := MRaises (e : exn) | MOk | MId (id : str) | MRec (f : fetched) | MVal (v : pyval).
 
 Definition of_unit (x : res unit) : mres := match x with Ans _ => MOk | Raises e => MRaises e end.
 Definition of_rec (x : res fetched) : mres := match x with Ans f => MRec f | Raises e => MRaises e end.
 Definition of_val (x : res pyval) : mres := match x with Ans v => MVal v | Raises e => MRaises e end.
+
+Definition model_save (k : kind) (r : recording) (st : cstate) : cstate * mres :=
+  match k with
+  | KMem => let '(s, x) := mem_save qp_simple r (s_mem st) in (CState s (s_dir st) (s_b st), of_unit x)
+  | KFile => let '(d, x) := file_save qp_simple r (s_dir st) in (CState (s_mem st) d (s_b st), of_unit x)
+  | KS3 p => let '(b, x) := s3_save qp_simple m_id (s3cfg p) r NoCalc (s_b st) in
+             (CState (s_mem st) (s_dir st) b, of_unit x)
+  end.
+
+(** a run of saves: stops at the first one that does not answer Ok *)
+Fixpoint model_bulk (k : kind) (rs : list recording) (st : cstate) : cstate * mres :=
+  match rs with
+  | [] => (st, MOk)
+  | r :: rs' => let '(st', m) := model_save k r st in
+                match m with MOk => model_bulk k rs' st' | _ => (st', m) end
+  end.
 
 Definition model_op (k : kind) (o : cop) (st : cstate) : cstate * mres :=
   match o, k with
@@ -55,10 +89,8 @@ Definition model_op (k : kind) (o : cop) (st : cstate) : cstate * mres :=
   | PCreate cat day uuid, KS3 p =>
       (st, match s3_create (s3cfg p) cat day uuid with Ans i => MId i | Raises e => MRaises e end)
   | PCreate cat _ uuid, _ => (st, MId (plain_create cat uuid))
-  | PSave r, KMem => let '(s, x) := mem_save qp_simple r (s_mem st) in (CState s (s_dir st) (s_b st), of_unit x)
-  | PSave r, KFile => let '(d, x) := file_save qp_simple r (s_dir st) in (CState (s_mem st) d (s_b st), of_unit x)
-  | PSave r, KS3 p => let '(b, x) := s3_save qp_simple m_id (s3cfg p) r NoCalc (s_b st) in
-                      (CState (s_mem st) (s_dir st) b, of_unit x)
+  | PSave r, _ => model_save k r st
+  | PBulk rs, _ => model_bulk k rs st
   | PGet id, KMem => (st, of_rec (mem_get qp_dec_simple loads id (s_mem st)))
   | PGet id, KFile => (st, of_rec (file_get qp_dec_simple loads id (s_dir st)))
   | PGet id, KS3 p => (st, of_rec (s3_get qp_dec_simple loads m_some (s3cfg p) id (objs (s_b st))))
@@ -99,26 +131,32 @@ Definition loads_premise (v : pyval) : bool :=
   | Some j => match loads (dumps j) with Some j' => json_eqb j j' | None => false end
   | None => true
   end.
+Definition premises_rec (r : recording) : bool :=
+  rec_leaves_ok r &&      (* the leaf-domain premise of the theorems holds of everything the harness saves *)
+  loads_premise (rec_obj r) && loads_premise (full_value r) && loads_premise (VDict (r_meta r)).
 Definition premises (o : cop) : bool :=
   match o with
-  | PSave r => rec_leaves_ok r &&      (* the leaf-domain premise of the theorems holds of everything the harness saves *)
-               loads_premise (rec_obj r) && loads_premise (full_value r) && loads_premise (VDict (r_meta r))
+  | PSave r => premises_rec r
+  | PBulk rs => forallb premises_rec rs
   | _ => true
   end.
 
-Fixpoint check_ops (k : kind) (ops : list (cop * cobs * list str)) (st : cstate) : bool :=
+Fixpoint check_ops (k : kind) (ops : list (cop * cobs * nobs)) (st : cstate) : bool :=
   match ops with
   | [] => true
   | (o, ob, names) :: ops' =>
       let '(st', m) := model_op k o st in
-      res_matches m ob && list_eqb str_eqb (model_names k st') names && premises o && check_ops k ops' st'
+      res_matches m ob && names_match k st' names && premises o && check_ops k ops' st'
   end.
 
 Definition check_case (c : case) : bool := check_ops (k_kind c) (k_ops c) (CState [] [] (BState [] [])).
 
-Fixpoint model_trace (k : kind) (ops : list (cop * cobs * list str)) (st : cstate) : list (mres * list str * bool) :=
+Fixpoint model_trace (k : kind) (ops : list (cop * cobs * nobs)) (st : cstate) : list (mres * nobs * bool) :=
   match ops with
   | [] => []
-  | (o, _, _) :: ops' => let '(st', m) := model_op k o st in (m, model_names k st', premises o) :: model_trace k ops' st'
+  | (o, _, n) :: ops' =>
+      let '(st', m) := model_op k o st in
+      (m, match n with NAll _ => NAll (model_names k st') | NCount _ => NCount (model_count k st') end, premises o)
+        :: model_trace k ops' st'
   end.
 Definition model_obs (c : case) := model_trace (k_kind c) (k_ops c) (CState [] [] (BState [] [])).
